@@ -16,6 +16,7 @@ import (
 	"os/exec"
 	"strings"
 	"sync"
+	"time"
 
 	"golang.org/x/crypto/chacha20poly1305"
 	"golang.org/x/crypto/curve25519"
@@ -59,9 +60,23 @@ func (m *Model) Close() {
 }
 
 // Call runs one model operation and returns the canonical result string.
+var opTime = map[string]time.Duration{}
+var opCount = map[string]int{}
+
+func profileReport() {
+	if os.Getenv("VERIF_PROFILE") == "" {
+		return
+	}
+	for op, d := range opTime {
+		fmt.Fprintf(os.Stderr, "[profile] %-22s %6d calls %v\n", op, opCount[op], d)
+	}
+}
+
 func (m *Model) Call(op string, args ...string) string {
 	m.mu.Lock()
 	defer m.mu.Unlock()
+	t0 := time.Now()
+	defer func() { opTime[op] += time.Since(t0); opCount[op]++ }()
 	m.n++
 	m.calls++
 	if os.Getenv("VERIF_DEBUG") != "" {
